@@ -41,17 +41,26 @@ Next == /\ c.st = 0
         /\ c' \in {[c EXCEPT !.parts = ps, !.meth = mm, !.st = 1] : ps \in PartSeqs, mm \in Methods}
 
 Impl(x) == ImplOutcomeX(RulesOf(x.idx), MapOf(x), BindOf(x.bind).b, x.meth, x.ws, PathOf(x.parts))
-Verdict(x) == JudgeX(RulesOf(x.idx), MapOf(x), BindOf(x.bind).b, PathOf(x.parts), x.meth, x.ws, Impl(x))
-ImplInExpectedX == c.st = 1 => Verdict(c) = "ok"
 
-\* the adapter's other methods on the model: allowed_methods() = the methods of the 405 for a method no rule
-\* lists, test() = "match() returned or redirected"; both within their contract
-AllowedOf(x) == LET o == ImplOutcomeX(RulesOf(x.idx), MapOf(x), BindOf(x.bind).b, NOMETHOD, x.ws, PathOf(x.parts)) IN
-                IF o.kind = "mna" THEN o.methods ELSE {}
-AdapterOpsInContract ==
+\* the matcher model's answer is one the contract accepts; and the adapter's other methods on the model
+\* (test() = "match() returned or redirected", allowed_methods() = the methods of the 405 for a method no
+\* rule lists; the latter does not depend on the method and is checked once per path) are within theirs
+ImplInExpectedX ==
   c.st = 1 =>
-    /\ JudgeAllowed(RulesOf(c.idx), MapOf(c), BindOf(c.bind).b, PathOf(c.parts), c.ws, AllowedOf(c)) = "ok"
-    /\ JudgeTest(RulesOf(c.idx), MapOf(c), BindOf(c.bind).b, PathOf(c.parts), c.meth, c.ws, Impl(c).kind \in {"match", "redirect"}) = "ok"
+    LET R == RulesOf(c.idx)
+        m == MapOf(c)
+        b == BindOf(c.bind).b
+        p == PathOf(c.parts)
+        dom == DomOf(m, b)
+        ood == OutOfDomainX(R, m, dom, p)
+        o == ImplOutcomeX(R, m, b, c.meth, c.ws, p)
+        e == ExpectedX(R, m, dom, Norm(p), c.meth, c.ws)
+    IN /\ JudgeXE(R, b, dom, c.ws, o, e, ood) = "ok"
+       /\ JudgeTestE(e, ood, o.kind \in {"match", "redirect"}) = "ok"
+       /\ (c.meth = "GET" /\ ~ood) =>
+             LET o0 == ImplOutcomeX(R, m, b, NOMETHOD, c.ws, p)
+                 e0 == ExpectedX(R, m, dom, Norm(p), NOMETHOD, c.ws)
+             IN JudgeAllowedE(e0, FALSE, IF o0.kind = "mna" THEN o0.methods ELSE {}) = "ok"
 
 \* non-vacuity counters: how often each interesting answer occurs in the model (read in the POSTCONDITION)
 Kinds == {"match", "redirect", "notfound", "mna", "wsm"}
